@@ -55,7 +55,7 @@ func init() {
 	def("C10", "exploration", "family 'repair': one-deviation grid and sampled products of initial per-node states + unregistered decoy servers; safety monitors + bounded convergence."+nt, familyPlan{"repair", 160, 3000, false})
 	def("C11", "exploration", "family 'recovery': switch away from a master in each GTID relation, recovery checker interleaved with manager iterations, resetup."+nt, familyPlan{"recovery", 140, 2500, false})
 	def("C15", "exploration", "engine B family 'dataplane': generated sequences of DCS data operations by 1-3 real zkDCS clients against a reference tree (sequential refinement when fault-free, per-operation admissibility under faults) + ephemeral lifetime."+nt, familyPlan{"dataplane", 160, 3000, false})
-	def("C16", "exploration", "family 'cascade': stream_from maps incl. chains/cycles/self/unregistered, ancestor health over time; monitors on CHANGE SOURCE at cascade servers."+nt, familyPlan{"cascade", 140, 2500, false})
+	def("C16", "exploration", "family 'cascade': stream_from maps incl. chains/cycles/self/unregistered, ancestor health over time; monitors on CHANGE SOURCE at cascade servers."+nt, familyPlan{"cascade", 330, 6600, false})
 	def("C17", "exploration", "family 'offline': zone layouts, caps, lag scripts around both thresholds, broken replication, resetup status; per-pass policy constraints."+nt, familyPlan{"offline", 300, 6000, false})
 	def("C18", "exploration", "family 'disk': usage scripts for master and semi-sync replicas through the three zones; hysteresis table vs read_only statements."+nt, familyPlan{"disk", 300, 6000, false})
 	def("C19", "exploration", "family 'optimization': registries, lag scripts, CLI enable/disable interleaved with syncs, switchovers to lagging replicas."+nt, familyPlan{"optimization", 140, 2500, false})
@@ -137,10 +137,30 @@ var frameRe = regexp.MustCompile(`(?m)^(github\.com/yandex/mysync/internal/[^\s(
 var raceRe = regexp.MustCompile(`WARNING: DATA RACE`)
 
 // classifyDeath turns a dead run process into a violation (C20) or harness trouble.
+// classifyDeathFor: deaths inside the cascade source resolution are what C16 states ("always
+// terminates", "never the replica itself"); for the C16 check they are C16 violations, for every
+// other check they are C20's.
+func classifyDeathFor(o *outcome, id string) (*violation, string) {
+	v, why := classifyDeath(o)
+	if v != nil && id == "C16" {
+		if strings.Contains(v.Signature, "findBestStreamFrom") || strings.Contains(v.Signature, "repairCascadeNode") || strings.Contains(v.Signature, "change-master-to-self") {
+			v.Property = "C16"
+			v.Signature = "C16/" + strings.TrimPrefix(v.Signature, "C20/")
+		}
+	}
+	return v, why
+}
+
+var watchdogFuncRe = regexp.MustCompile(`WATCHDOG-FUNC: (\S+)`)
+
 func classifyDeath(o *outcome) (*violation, string) {
 	st := o.stderr
 	if o.exitCode == 3 {
-		return &violation{Property: "C20", Clause: "nontermination", Signature: "C20/nontermination/goroutine-running-in-internal-app", Detail: "a goroutine kept running inside internal/app for >25s real time without making an external call"}, ""
+		fn := "goroutine-running-in-internal-app"
+		if m := watchdogFuncRe.FindStringSubmatch(st); m != nil {
+			fn = strings.TrimPrefix(m[1], "github.com/yandex/mysync/internal/")
+		}
+		return &violation{Property: "C20", Clause: "nontermination", Signature: "C20/nontermination/" + fn, Detail: "a goroutine kept running inside " + fn + " for seconds of real time without making an external call (non-terminating computation)"}, ""
 	}
 	if m := panicRe.FindString(st); m != "" {
 		// first mysync frame after the panic line
@@ -334,7 +354,7 @@ func cmdCheck(id, tier string) int {
 		}
 		agg.add(o)
 		if o.res == nil {
-			v, why := classifyDeath(o)
+			v, why := classifyDeathFor(o, id)
 			if v == nil {
 				harnessTrouble = append(harnessTrouble, fmt.Sprintf("%s index %d: %s", jobs[i].fam.family, jobs[i].index, why))
 				continue
@@ -470,7 +490,7 @@ func cmdReplay(file string, verbose bool) int {
 	o := runOne(bin, simInput{Mode: "replay", Spec: rf.Spec, Verbose: verbose}, 20*time.Minute)
 	printOutcome(o)
 	if o.res == nil {
-		if v, _ := classifyDeath(o); v != nil && v.Signature == rf.Signature {
+		if v, _ := classifyDeathFor(o, rf.Property); v != nil && v.Signature == rf.Signature {
 			fmt.Printf("VIOLATION property=%s replay=%s\n", rf.Property, file)
 			return 1
 		}
